@@ -94,13 +94,53 @@ def _run_shard(job):
 
     dims = job["dims"]
     shapes = job["shapes"]
-    anns = {d: Float[Duck, d] for d in dims}
+    variant = job.get("variant", "duck")
+    force_false = False
+    if variant == "duck":
+        anns = {d: Float[Duck, d] for d in dims}
+        mkval = Duck
+    elif variant == "any":
+        import typing
+
+        anns = {d: Float[typing.Any, d] for d in dims}
+        mkval = Duck
+    elif variant == "np":
+        import numpy as np
+
+        anns = {d: Float[np.ndarray, d] for d in dims}
+        mkval = lambda sh: np.zeros(sh, dtype="float32")
+    elif variant == "jax":
+        import jax
+        import jax.numpy as jnp
+
+        anns = {d: Float[jax.Array, d] for d in dims}
+        mkval = lambda sh: jnp.zeros(sh, dtype="float32")
+    elif variant == "tf":
+        import tensorflow as tf
+
+        anns = {d: Float[tf.Tensor, d] for d in dims}
+        mkval = lambda sh: tf.zeros(sh, dtype=tf.float32)
+    elif variant == "wrongclass":
+        from ..adapter import Duck2
+
+        anns = {d: Float[Duck2, d] for d in dims}
+        mkval = Duck
+        force_false = True
+    elif variant.startswith("dtype:"):
+        import jaxtyping
+
+        _, cat, dt, member = variant.split(":")
+        anns = {d: getattr(jaxtyping, cat)[Duck, d] for d in dims}
+        mkval = lambda sh: Duck(sh, dt)
+        force_false = member == "0"
+    else:
+        raise ValueError(variant)
     axes = {}
     for d in dims:
         st, ax = rdims.parse(d)
         assert st == "ok", (d, st, ax)
         axes[d] = ax
-    vals = {sh: Duck(sh) for sh in shapes}
+    vals = {sh: mkval(sh) for sh in shapes}
     stats = dict(transitions=0, nontrivial=0, true=0, false=0, annot=0, dontcare=0, pb_checks=0, rebuilds=0)
     viols = []
     samples = []
@@ -138,7 +178,10 @@ def _run_shard(job):
                     n += 1
                     got = adapter.check(vals[sh], anns[d])
                     after = adapter.read_state()
-                    exp, rnew, allowed = rshapes.step(rbase, axes[d], sh, args)
+                    if force_false:
+                        exp, rnew, allowed = False, rbase, {False}
+                    else:
+                        exp, rnew, allowed = rshapes.step(rbase, axes[d], sh, args)
                     stats["transitions"] += 1
                     if got is True:
                         stats["true"] += 1
@@ -170,9 +213,9 @@ def _run_shard(job):
                     if bad is not None:
                         viols.append(
                             Violation(
-                                key=f"C01:{d}:{sh}:{'ctx' if hist else 'empty'}",
-                                what=f"history={hist} args={args} check Float[Duck,{d!r}] on shape {sh}: {bad}",
-                                replay=dict(kind="transition", history=hist, args=args, dims=d, shape=list(sh)),
+                                key=f"C01:{d}:{sh}:{'ctx' if hist else 'empty'}" + ("" if variant == "duck" else f":{variant}"),
+                                what=f"history={hist} args={args} check [{variant}] {d!r} on shape {sh}: {bad}",
+                                replay=dict(kind="transition", history=hist, args=args, dims=d, shape=list(sh), variant=variant),
                             )
                         )
                     if len(samples) < 4 and changed and hist:
@@ -264,6 +307,20 @@ def run(ctx):
     long_shapes = shapes_big() + [sh for sh in shapes_small() if len(sh) == 3]
     for idx in common.shards(len(long_states), common.NCPU * 2, ctx.seed):
         jobs.append(dict(states=[long_states[i] for i in idx], dims=long_dims, shapes=long_shapes, pb_every=16))
+    # carrier / array-type / dtype slices: the shape semantics must not depend on who carries
+    # the shape, a wrong class or a dtype outside the category must answer False and bind nothing
+    car_dims = dim_strings(["a", "#a", "2", "_", "a+1"], ["*v", "*#v", "..."], long_family=False)
+    car_states = [s for s in st_list if len(s[0]) <= 1][::2] + [s for s in st_list if len(s[0]) == 2][:: (9 if ctx.quick else 3)]
+    car_shapes = [sh for sh in shapes_small() if 0 not in sh or len(sh) <= 2]
+    variants = ["np", "any", "wrongclass", "dtype:Float:float16:1", "dtype:Float:int32:0", "dtype:Int:int32:1", "dtype:Int:float32:0", "dtype:Num:bool:0", "dtype:Shaped:bool:1"]
+    if ctx.thorough:
+        variants += ["jax", "dtype:Float:bfloat16:1", "dtype:Complex:float32:0", "dtype:Inexact:complex64:1"]
+    for v in variants:
+        nsp = 2 if ctx.quick else 4
+        for idx in common.shards(len(car_states), nsp, 0):
+            jobs.append(dict(states=[car_states[i] for i in idx], dims=car_dims, shapes=car_shapes, pb_every=16, variant=v))
+    if ctx.thorough:
+        jobs.append(dict(states=car_states[:6], dims=car_dims[::3], shapes=[sh for sh in car_shapes if len(sh) <= 2], pb_every=16, variant="tf"))
     outs = common.pmap(_run_shard, jobs)
     stats = common.merge_counts(o[0] for o in outs)
     viols = [Violation(**v) for o in outs for v in o[1]]
@@ -284,6 +341,9 @@ def run(ctx):
         long_dim_strings=len(long_dims),
         shapes=len(shapes),
         long_shapes=len(long_shapes),
+        carrier_variants=variants + (["tf"] if ctx.thorough else []),
+        carrier_dim_strings=len(car_dims),
+        carrier_states=len(car_states),
         verdict_true=stats["true"],
         verdict_false=stats["false"],
         verdict_annotation_error=stats["annot"],
@@ -317,6 +377,10 @@ def replay(rep):
         for d, sh in rep["history"]:
             adapter.check(Duck(tuple(sh)), Float[Duck, d])
         base = adapter.read_state()
+        if rep.get("variant", "duck") != "duck":
+            st_, v_, _s = _run_shard(dict(states=[(rep["history"], rep["args"])], dims=[rep["dims"]], shapes=[tuple(rep["shape"])], pb_every=1, variant=rep["variant"]))
+            out.update(variant=rep["variant"], violations=[x["what"] for x in v_], violates=bool(v_))
+            return
         got = adapter.check(Duck(tuple(rep["shape"])), Float[Duck, rep["dims"]])
         after = adapter.read_state()
         rb = (dict(base[0]), {k: (ex, sh) for k, ex, sh in base[1]})
